@@ -655,3 +655,70 @@ def serialize_value(ex, st, v):
         # contract of the PasetoClaim + Serialize pair for a user type: a one-entry map {get_key(): value}
         return [(st, mk_obj(Store(K(S, False), d[1], True), Store(K(S, JV.Null), d[1], d[2])))]
     return _old_serialize_value(ex, st, v)
+
+
+# ----------------------------------------------------------------------------- further std / serde_json API surface (used by plausible rewrites of the crate)
+def _enumerated_present(m):
+    if len(m) > 3 and m[3] is not None: return [Select(m[1], k) for k in m[3]]
+    if m[0] == 'vmap': return [Select(m[1], k) for k, _ in m[2]]
+    raise Unsupported('size of a map whose keys are not enumerated')
+
+
+@contract(r'^HashMap::<std::string::String, Box<dyn .*>>::is_empty$')
+def c_hm_is_empty(ex, st, callee, a):
+    ps = _enumerated_present(deref(st, a[0])); return [(None, Not(Or(*ps)) if ps else BoolVal(True))]
+
+
+@contract(r'^HashMap::<std::string::String, Box<dyn .*>>::len$')
+def c_hm_len(ex, st, callee, a):
+    m = deref(st, a[0]); keys = list(m[3]) if (len(m) > 3 and m[0] == 'hmap') else [k for k, _ in m[2]]
+    tot = IntVal(0)
+    for i, k in enumerate(keys): tot = tot + If(And(Select(m[1], k), *[keys[j] != k for j in range(i)]), 1, 0)
+    return [(None, tot)]
+
+
+@contract(r'^HashMap::<std::string::String, Box<dyn erased_serde::Serialize>>::get::<')
+def c_hmap_get(ex, st, callee, a):
+    m = deref(st, a[0]); k = as_str(st, a[1])
+    vc = st.new_cell(('boxed', Select(m[2], k)))
+    return [(Select(m[1], k), some(('ref', vc, ()))), (Not(Select(m[1], k)), NONE)]
+
+
+@contract(r'^HashMap::<std::string::String, Box<dyn for<.*>>::get::<')
+def c_vmap_get(ex, st, callee, a):
+    m = deref(st, a[0]); k = as_str(st, a[1])
+    outs = [(Not(Select(m[1], k)), NONE)]
+    for c, v in vmap_lookup(m, k):
+        s2 = st.fork(); vc = s2.new_cell(v); outs.append((And(Select(m[1], k), c), some(('ref', vc, ())), s2))
+    return outs
+
+
+jpointer_special = Function('json_pointer_result', JV, S, JV)
+
+
+@contract(r'^serde_json::Value::pointer$')
+def c_value_pointer(ex, st, callee, a):
+    """RFC 6901 pointer: "/" + key addresses member `key` only when key contains neither '/' nor '~'"""
+    v = to_jv(st, a[0]); p = as_str(st, a[1])
+    key = SubString(p, 1, Length(p) - 1)
+    plain = And(PrefixOf(StringVal('/'), p), Not(Contains(key, StringVal('/'))), Not(Contains(key, StringVal('~'))))
+    hit = And(JV.is_Obj(v), jhas(JV.o(v), key))
+    r = jpointer_special(v, p); anyres = Bool('pointer_some%d' % next(fresh))
+    vc1 = st.new_cell(jindex(v, key)); vc2 = st.new_cell(r)
+    return [(And(plain, hit), some(('ref', vc1, ()))), (And(plain, Not(hit)), NONE),
+            (And(Not(plain), anyres), some(('ref', vc2, ()))), (And(Not(plain), Not(anyres)), NONE)]
+
+
+@contract(r'^serde_json::Value::get::<&?(str|std::string::String|&std::string::String)>$', r'^serde_json::Value::get::<')
+def c_value_get(ex, st, callee, a):
+    v = to_jv(st, a[0]); k = as_str(st, a[1]); hit = And(JV.is_Obj(v), jhas(JV.o(v), k))
+    vc = st.new_cell(jindex(v, k))
+    return [(hit, some(('ref', vc, ()))), (Not(hit), NONE)]
+
+
+@contract(r'^serde_json::Value::is_object$')
+def c_is_object(ex, st, callee, a): return [(None, JV.is_Obj(to_jv(st, a[0])))]
+
+
+@contract(r'^<serde_json::Value as Clone>::clone$')
+def c_value_clone(ex, st, callee, a): return [(None, to_jv(st, a[0]))]
